@@ -63,6 +63,11 @@ func vfHangScenarios() []vfScenario {
 	add("down-archive", vfCfg{Dir: "down", Directory: true}, []string{"d"}, dir)
 	add("up-archive", vfCfg{Dir: "up", Directory: true}, []string{"d"}, dir)
 	add("up-dir-y", vfCfg{Dir: "up", Directory: true, Overwrite: true}, []string{"d"}, dir)
+	// a file far larger than the pipeline's read-ahead, so that a change of length lands mid-read
+	bigdir := []vfFileSpec{{Rel: "d", Dir: true}, {Rel: "d/a.bin", Size: 20000, Content: "rand"}, {Rel: "d/zbig.bin", Size: 12 << 20, Content: "zeros"}, {Rel: "d/zz.txt", Size: 100, Content: "text"}}
+	add("big-down-archive", vfCfg{Dir: "down", Directory: true}, []string{"d"}, bigdir)
+	add("big-up-archive", vfCfg{Dir: "up", Directory: true}, []string{"d"}, bigdir)
+	add("big-down-files", vfCfg{Dir: "down", Directory: true, Overwrite: true, Binary: true}, []string{"d"}, bigdir)
 	return sc
 }
 
@@ -82,7 +87,14 @@ func TestVF_C11(t *testing.T) {
 			if yield != "off" {
 				id = fmt.Sprintf("y-%s-%s-h%d", strings.ReplaceAll(yield, ":", "_"), sc.Name, k)
 			}
-			cases = append(cases, vfCase{ID: id, Run: func(c *vfCtx) { vfHangCase(c, si, sc, k, faults[(k+si)%len(faults)], yield) }})
+			fault := faults[(k+si)%len(faults)]
+			if strings.HasPrefix(sc.Name, "big-") {
+				if k >= vfPick(8, 60) {
+					continue
+				}
+				fault = []string{"src-truncated", "src-truncated", "src-grown", "src-shrunk-before-read"}[k%4]
+			}
+			cases = append(cases, vfCase{ID: id, Run: func(c *vfCtx) { vfHangCase(c, si, sc, k, fault, yield) }})
 		}
 	}
 	vfRunCases(t, "C11", cases, 3, 240*time.Second)
@@ -122,8 +134,11 @@ func vfHangCase(c *vfCtx, si int, sc vfScenario, k int, fault string, yield stri
 		dataDir = "c2s"
 	}
 	switch fault {
-	case "dest-full", "dest-removed", "src-truncated", "src-grown":
+	case "dest-full", "dest-removed", "src-truncated", "src-grown", "src-shrunk-before-read":
 		plan.Dir = dataDir // these act when a DATA message passes
+	}
+	if strings.HasPrefix(sc.Name, "big-") {
+		k = k * 4 // fire at the first DATA messages: the big file must still be mid-read
 	}
 	msgs := bc2s
 	if plan.Dir == "s2c" {
@@ -194,9 +209,11 @@ func vfHangCase(c *vfCtx, si int, sc vfScenario, k int, fault string, yield stri
 	fired := false
 	var firedAt time.Time
 	victim := ""
+	vsize := -1
 	for _, sp := range sc.Specs {
-		if !sp.Dir {
-			victim = filepath.Join(src, sp.Rel) // the last regular file: reached late, certainly after the scan
+		if !sp.Dir && sp.Size >= vsize {
+			victim = filepath.Join(src, sp.Rel) // the largest (else the last) regular file
+			vsize = sp.Size
 		}
 	}
 	act := func() {
@@ -247,7 +264,7 @@ func vfHangCase(c *vfCtx, si int, sc vfScenario, k int, fault string, yield stri
 		fired = true
 		firedAt = time.Now()
 		mu.Unlock()
-		if fault != "dest-full" && fault != "src-missing" {
+		if fault != "dest-full" && fault != "src-missing" && fault != "src-shrunk-before-read" {
 			act()
 		}
 	}
@@ -262,6 +279,12 @@ func vfHangCase(c *vfCtx, si int, sc vfScenario, k int, fault string, yield stri
 			return files
 		}
 	}
+	if fault == "src-shrunk-before-read" {
+		s.doctor = func(files []*sourceFile) []*sourceFile {
+			os.Truncate(victim, int64(vsize/3)) // shorter than scanned, changed before it is opened
+			return files
+		}
+	}
 	srcOrig := vfSnapshot(src) // the sources as they were when the transfer was requested
 	s.Start(paths, dst)
 	bound := time.Duration(plan.Timeout)*time.Second + 9*time.Second
@@ -270,7 +293,7 @@ func vfHangCase(c *vfCtx, si int, sc vfScenario, k int, fault string, yield stri
 	mu.Lock()
 	didFire, at := fired, firedAt
 	mu.Unlock()
-	if fault == "dest-full" || fault == "src-missing" {
+	if fault == "dest-full" || fault == "src-missing" || fault == "src-shrunk-before-read" {
 		didFire = true
 	}
 	if !okS || !okC {
@@ -331,7 +354,7 @@ func vfHangCase(c *vfCtx, si int, sc vfScenario, k int, fault string, yield stri
 		c.Obs("faults_after_completion", 1)
 	}
 	// a side that can still talk tells its peer why: local faults must show up in the peer's error text
-	cause := map[string]string{"dest-full": "no space left", "dest-removed": "", "src-truncated": "EOF but", "src-missing": "no such file", "wrong-type": "HUH"}[fault]
+	cause := map[string]string{"dest-full": "no space left", "dest-removed": "", "src-truncated": "EOF but", "src-shrunk-before-read": "EOF but", "src-missing": "no such file", "wrong-type": "HUH"}[fault]
 	if cause != "" {
 		origin, peer := so, co
 		originName := "server"
